@@ -30,7 +30,14 @@ func NewWeekFromString(yyyyWww string) (Week, error) {
 	if week < 1 {
 		return Week{}, errors.New("INVALID_WEEK_PERIOD")
 	}
-	reference, err := func() (klog.Date, error) {
+	reference, err := func() (ref klog.Date, err error) {
+		defer func() {
+			// The date arithmetic panics if the week is not fully within the range of
+			// representable dates, e.g. `9999-W52` (which would end on 10000-01-02).
+			if r := recover(); r != nil {
+				ref, err = nil, errors.New("INVALID_WEEK_PERIOD")
+			}
+		}()
 		ref, yErr := klog.NewDate(year, 7, 1)
 		if yErr != nil {
 			return nil, errors.New("INVALID_WEEK_PERIOD")
@@ -40,6 +47,7 @@ func NewWeekFromString(yyyyWww string) (Week, error) {
 		}
 		_, w := ref.WeekNumber()
 		ref = ref.PlusDays((week - w) * 7)
+		ref.PlusDays(6) // The last day of the week must be representable as well.
 		return ref, nil
 	}()
 	if err != nil {
